@@ -143,13 +143,14 @@ def monotonic_factorization(arr: ArrayType1D) -> Tuple[int, np.ndarray, pd.Index
     if pd_type.kind == "M":
         arr, pd_type = _convert_timestamp_to_tz_unaware(arr)
 
-    arr_list = _val_to_numpy(arr, as_list=True)
-
-    total_len = len(arr)
-    if arr_list[0].dtype.kind not in "iufbmM":
+    if getattr(pd_type, "kind", "O") not in "iufbmM":
         # strings / objects cannot be compared inside the jitted run detector:
         # report an empty monotonic prefix so the caller uses the general route
         return 0, np.empty(0, dtype=np.uint32), pd.Index([], dtype=pd_type)
+
+    arr_list = _val_to_numpy(arr, as_list=True)
+
+    total_len = len(arr)
     cutoff, codes, labels = _monotonic_factorization(arr_list, total_len)
     # Convert labels to pd.Index with proper dtype handling
     if pd_type.kind == "M":
